@@ -438,8 +438,6 @@ type checker struct {
 	// several read paths on one handle (reuse.go)
 	reusedHandle []string // a step disagrees after other reads on the same handle, and agrees on a handle of its own
 	rowDiffers   []string // Row() itself disagrees with the rows Find returns
-	pluckPanics  []string // Pluck panics on a handle that ran another read before
-	afterSmall   []string // a read after a Find into a struct with fewer columns, on the same handle, disagrees
 }
 
 func (k *checker) add(f string, a ...interface{}) {
@@ -1268,8 +1266,6 @@ func run(c *core.Ctx) {
 		emit("Find[]map:used-slice-appended-to", k.mapAppend, true)
 		emit("ReadPaths:reused-handle", k.reusedHandle, true)
 		emit("Row:differs-from-Find", k.rowDiffers, true)
-		emit("Pluck:panics-after-read-on-same-handle", k.pluckPanics, true)
-		emit("ReadPaths:reused-handle:after-smaller-struct", k.afterSmall, true)
 		return len(k.problems) > 0
 	}
 	// through a Scopes call (one chain in three; two in three of these hand back a new session)
@@ -1446,8 +1442,8 @@ var Engine = &core.Engine{
 		"one chain in three (also in the FindInBatches grid) hands a suffix of its conditions - for the read paths sometimes Order/Limit/Offset too - over through Scopes(func), the function returning the handle it built on, a new session of it (Session, Debug) or a chain built on a new session of it (Session, WithContext); " +
 		"every second time each slice / array destination has been used before (it still holds the whole table, all matching rows or a page when the chain under test is read into it; an array must be zero beyond the rows reported); " +
 		"all of it once more from one reusable base (0..3 Order calls) whose derived handles are run after the base was used again, and on a chain with hand-built joins executed repeatedly; a read that fails at run time while the first row is produced must fail on every path; " +
-		"and 2..5 read paths one after another on ONE handle (the chain value itself - without Scopes -, a Session(&gorm.Session{}) of it, or WithContext of it; bound to the model): 1..4 random steps out of the paths that add nothing of their own to a chain - Row() (scanned column by column: the first row of the chain, sql.ErrNoRows when the chain selects none, Limit(0) included), Rows+ScanRows, Find into []T, into []map, into a slice of a two-column struct, Scan, Count (chains without Limit/Offset) - then one last step out of these or Pluck(id), Pluck(s), First / Last / Take (no order, no window), FindInBatches (key order, random batch size); every step is compared with the reference, a panic inside a step is that step's result. " +
-		"Signatures: ReadPaths / FindInBatches, with the suffix :through-scope, :used-destination when the same chain read directly into fresh destinations is fine; classes of their own (once per case): Scan:used-slice-kept-on-empty-result, Find[]map:used-slice-appended-to; on one handle: ReadPaths:reused-handle (a step disagrees with the reference after other reads on the handle, the same step first on a handle built the same way agrees), ReadPaths:reused-handle:after-smaller-struct (as before, and the same steps without the Find into the two-column struct agree), Pluck:panics-after-read-on-same-handle, Row:differs-from-Find (Row() itself, also as the first step). " +
+		"and 2..5 read paths one after another on ONE REUSABLE handle made of the chain (Session(&gorm.Session{}), WithContext, Debug, a session of a session; bound to the model; the chain may carry Scopes): random steps out of Row() (scanned column by column: the first row of the chain, sql.ErrNoRows when the chain selects none, Limit(0) included), Rows+ScanRows, Find into []T, into []map, into a slice of a two-column struct, Scan, Count (chains without Limit/Offset), Pluck(id), Pluck(s), First / Last / Take (no order, no window), FindInBatches (key order, random batch size), any path at any position; every step is compared with the reference, a panic inside a step is that step's result. " +
+		"Signatures: ReadPaths / FindInBatches, with the suffix :through-scope, :used-destination when the same chain read directly into fresh destinations is fine; classes of their own (once per case): Scan:used-slice-kept-on-empty-result, Find[]map:used-slice-appended-to; on one handle: ReadPaths:reused-handle (a step disagrees with the reference after other reads on the handle, the same step first on a handle built the same way agrees), Row:differs-from-Find (Row() itself, also as the first step). " +
 		"distinct = (size, batch, limit, offset, conditioned, rows delivered) resp. (size, calls, order, units, scope kind, used destinations) resp. (handle kind, first step, steps, last step, calls, order) of an agreeing sequence on one handle that delivered rows; non-trivial = at least one row delivered, or an empty window read into used destinations, or single-record finders through a scope",
 	Assumptions: []string{
 		"keys have gaps; rows are inserted with raw SQL",
@@ -1456,7 +1452,7 @@ var Engine = &core.Engine{
 		"Count is compared only on chains without Limit/Offset, single-record finders only without explicit order/limit/offset (as the statement says)",
 		"FindInBatches gets its Limit/Offset on the chain itself, never from inside a scope (it reads them before scopes run); the conditions may come from a scope",
 		"not generated, because the statement does not fix it: chaining on the handle returned by Count when the chain went through Scopes (after a scope that hands back a new session the handle keeps SELECT count(*)); re-executing a chain value that carries Scopes; single-record finders into a struct that already holds a key (the key becomes a condition); maps as used destinations of Take",
-		"on one handle only read paths that add no clause of their own are followed by another read: Pluck (adds its column), First / Last / Take (add LIMIT 1 and a key order) and FindInBatches (adds a key order) are the last step of a sequence; destinations of these sequences are fresh, none is a single struct (its key would become a condition of the next read), ScanRows is called on the root handle; Row() is read with SELECT * of the model (columns in table order) and, without an explicit order, may deliver any row of the chain",
+		"excluded as documented misuse: a chain value (h := db.Model(..).Where(..), no Session / WithContext / Debug behind it) executed more than once - the sequences of several reads run on reusable handles only (the older joined block, which re-executes a chain value with Find and Count only, is unchanged); destinations of these sequences are fresh, ScanRows is called on the root handle; Row() is read with SELECT * of the model (columns in table order) and, without an explicit order, may deliver any row of the chain",
 	},
 	Cases:         func(tier string) int { return (maxN(tier) + 1) * (maxN(tier) + 2) * reps(tier) },
 	Batch:         func(tier string) int { return 48 },
